@@ -44,6 +44,14 @@ class WaiterTimeoutTick:
             init.workers, lambda s: implies(s != tick.step_name, same(result[0].workers[s], init.workers[s]))
         )
 
+    def ensures_only_start_commands(old, tick, init, now_seconds, result):
+        # a waiter timeout can only start / enqueue the waiting invocation again
+        return forall(
+            len(result[1]),
+            lambda i: isinstance(result[1][i], CommandRunWorker)
+            or (isinstance(result[1][i], CommandPublishEvent) and type_is(result[1][i].event, StepStateChanged)),
+        )
+
     def ensures_only_pending_waiter(old, tick, init, now_seconds, result):
         # C10: a timeout acts only on a waiter that exists and has not been resolved; otherwise nothing happens
         st = result[0]
